@@ -41,7 +41,7 @@ Section C02.
   (* finite regime, some pass converges: stops at the LEAST k in [max 1 min_iter, max_iter] at which every
      check variable moved by strictly less than tol; '.', iterations = k, True; exactly k passes; hooks once each *)
   Theorem C02_converges_at_least_k d o t s p v1 k0 :
-    min_iter o <= max_iter o -> 0 < max_iter o ->
+    min_iter o <= max_iter o -> 0 <= max_iter o ->
     py_pos (length (status s)) t = Some p -> offset o = 0 ->
     let c0 := get_check num zero d (vals_of s) p in
     let N := Z.to_nat (max_iter o) in
@@ -62,7 +62,7 @@ Section C02.
 
   (* finite regime, no pass converges: 'F', iterations = max_iter, False / NonConvergenceError iff failures='raise' *)
   Theorem C02_fails_when_no_k d o t s p v1 :
-    min_iter o <= max_iter o -> 0 < max_iter o ->
+    min_iter o <= max_iter o -> 0 <= max_iter o ->
     py_pos (length (status s)) t = Some p -> offset o = 0 ->
     let c0 := get_check num zero d (vals_of s) p in
     let N := Z.to_nat (max_iter o) in
@@ -81,7 +81,7 @@ Section C02.
 
   (* the complete equation, from which the two readings above follow *)
   Theorem C02_finite_spec d o t s p v1 :
-    min_iter o <= max_iter o -> 0 < max_iter o ->
+    min_iter o <= max_iter o -> 0 <= max_iter o ->
     py_pos (length (status s)) t = Some p ->
     offset o = 0 ->
     let c0 := get_check num zero d (vals_of s) p in
@@ -107,23 +107,17 @@ Section C02.
     end.
   Proof. exact (solve_t_finite_spec num sub absf ltb isfin zero ev before after d o t s p v1). Qed.
 
-  (* finding #1 (max_iter <= 0): the statement "status F, iterations = max_iter, return False" fails:
-     the code writes 'F', leaves iterations[t] alone and raises UnboundLocalError *)
-  Theorem C02_maxiter0_behaviour d o t s p v1 :
-    min_iter o <= max_iter o -> max_iter o <= 0 ->
+  (* max_iter = 0: no pass is run, status F, iterations = max_iter = 0 (holds since the fix: commit for finding #1) *)
+  Theorem C02_maxiter0 d o t s p v1 :
+    min_iter o <= max_iter o -> max_iter o = 0 ->
     py_pos (length (status s)) t = Some p -> offset o = 0 ->
     all_finite num isfin (get_check num zero d (vals_of s) p) = true ->
     before t (errors o) (catch_first o) 0%nat (vals_of s) = (v1, None) ->
     solve_t_M d o t s =
-      (mkState v1 (upd p Failed (status s)) (iters s) (log s ++ [EvBefore t]), Raise UnboundLocalError).
+      (mkState v1 (upd p Failed (status s)) (upd p (max_iter o) (iters s)) (log s ++ [EvBefore t]),
+       if fail_raise o then Raise NonConvergenceError else Ret false).
   Proof. exact (solve_t_maxiter0 num sub absf ltb isfin zero ev before after d o t s p v1). Qed.
 End C02.
-
-(* the property's max_iter = 0 clause is refuted by a concrete run of the float instance *)
-Theorem C02_maxiter0_refuted :
-  exists sc d o t s, max_iter o = 0 /\ min_iter o <= max_iter o /\
-    snd (f_solve_t sc d o t s) <> Ret false /\ snd (f_solve_t sc d o t s) <> Raise NonConvergenceError.
-Proof. exact maxiter0_refuted. Qed.
 
 Print Assumptions C02_min_gt_max_rejected.
 Print Assumptions C02_offset_out_of_span_rejected.
@@ -131,6 +125,5 @@ Print Assumptions C02_offset_seeds.
 Print Assumptions C02_converges_at_least_k.
 Print Assumptions C02_fails_when_no_k.
 Print Assumptions C02_finite_spec.
-Print Assumptions C02_maxiter0_behaviour.
-Print Assumptions C02_maxiter0_refuted.
+Print Assumptions C02_maxiter0.
 Print Assumptions ex_hypotheses_satisfiable.
